@@ -5,6 +5,20 @@ COMMON_TB = [
 ]
 
 PROPS = {
+    'C05': dict(
+        id='C05',
+        lean_modules=['OrasModel.Props.C05'],
+        domains=['C05'],
+        required_theorems=['c05_readAll_iff', 'c05_readAll_trailing', 'c05_copyBuffer_sound', 'c05_copyBuffer_eq_readAll', 'c05_negative_size_rejected',
+                           'c05_memPush_visible', 'c05_ociPush_visible', 'c05_pushes_good', 'c05_limitedPush_sound'],
+        level_text='Theorems (for every byte string, descriptor, chunking, zero-length read and error position): ReadAll succeeds iff size>=0, digest valid, the reader delivers exactly Size bytes hashing to Digest then a clean EOF; CopyBuffer is sound and equals ReadAll for size>=0; Push of the memory/limited/OCI store models changes the visible map only on success and only by key -> verified bytes; any sequence of pushes keeps every blob named by its hash.',
+        level_note='Hash is an abstract injective-on-use function H; buffers are at least as large as scripted chunks; model tied to content/reader.go, internal/ioutil, cas.Memory, LimitedStorage, oci.Storage and file.Store by an exhaustive reader x descriptor grid run through the real code and the Lean driver. Goroutine races on one digest are observed, not proved.',
+        thorough_seeds=4,
+        rule='grid: contents x delivered variants x 6-9 reader plans x 25 descriptors through ReadAll and CopyBuffer (exhaustive over the grid), then random sub-sequences pushed into six store flavours; non-trivial = descriptor passes the up-front checks (valid digest, size >= 0) so that the read loop runs; distinct by construction of the grid / distinct push scripts',
+        trusted_base=COMMON_TB + ['SHA-256/512 modelled as an abstract function; equality of digests = equality of bytes in the driver'],
+        assumptions=['io.LimitedReader / io.TeeReader / io.ReadFull / io.CopyBuffer behave as documented', 'os.Rename is atomic; CreateTemp names are unique'],
+        stated_not_proved=['atomicity of concurrent OCI pushes under one digest is observed by the race stream only'],
+    ),
     'C07': dict(
         id='C07',
         lean_modules=['OrasModel.Props.C07'],
